@@ -38,7 +38,7 @@ def scenarios(tier, rng):
     for bits in WIDTHS:
         mx = (1 << bits) - 1
         big = bits > 1100
-        lean = quick and bits not in QUICK_TEXT_WIDTHS      # quick tier: the other widths get formatting + a thin slice
+        lean = bits not in QUICK_TEXT_WIDTHS      # the other widths get formatting + a thin slice of parsing / digit strings
         # values around chunk boundaries of the formatter and around 2^BITS
         vs = {0, 1, mx, mx - 1 if mx else 0, mx >> 1}
         for c in (10**19, 2**63, 2**60, 8**21):
@@ -111,7 +111,8 @@ def scenarios(tier, rng):
         elif quick:
             radices = sorted({0, 1, 2, 8, 10, 16, 36, 37, 62, 64, 65, rng.randrange(3, 36), rng.randrange(38, 64)})
         else:
-            radices = list(range(0, 66)) + [2**32, 2**64 - 1]
+            radices = (list(range(0, 66)) + [2**32, 2**64 - 1]) if bits in (0, 8, 64, 65, 127, 256) else \
+                sorted({0, 1, 2, 3, 7, 8, 10, 16, 35, 36, 37, 38, 61, 62, 63, 64, 65, rng.randrange(3, 36), rng.randrange(38, 64)})
         for r in radices:
             strs = []
             rr = min(max(r, 2), 64)
